@@ -114,7 +114,7 @@ pub enum Ev<W> {
 
 /// `b` extends `a` by a burst that ended in a fault.
 pub open spec fn faulted<W>(a: Seq<Ev<W>>, b: Seq<Ev<W>>) -> bool {
-    a.len() < b.len() && b.subrange(0, a.len() as int) == a && b.last() is Fault
+    a.len() < b.len() && (forall|i: int| 0 <= i < a.len() ==> #[trigger] b[i] == a[i]) && b.last() is Fault
 }
 
 // ------------------------------------------------------------------------- orientation geometry
